@@ -18,7 +18,8 @@ LEVEL_TEXT = ("Every CREATE [OR REPLACE] TYPE AS ENUM (1..4 values, two glue sty
               " Entity names that coincide with grammar keywords (schema, key, type, database, index, comment, domain) are enumerated for every kind."
               " Two declarations of the same kind in one script must equal their stand-alone entities."
               ' Since wave 5: 12 entity names (incl. ARRAY_T / my_ARRAY used as a column type), every declaration directly after a one-line SET statement (as last statement and followed by another declaration), every third declaration re-run on the same object in bigquery, hql and default mode, and declarations of DIFFERENT kinds side by side: all ordered pairs of 39 representative declarations (thorough: every declaration x every representative in both orders, all 39^3 triples).'
-              " Defect hunt: backtick / bracket entity names (CREATE SCHEMA backticks: known finding, pinned), the type name identity_t, declarations followed by a table without ';'.")
+              " Defect hunt: backtick / bracket entity names (CREATE SCHEMA backticks: known finding, pinned), the type name identity_t, declarations followed by a table without ';'."
+              " Wave 6: the mixed-terminator script (an unterminated statement ended by a complete one-line ';'-terminated statement).")
 LEVEL_NOTE = "Name forms: plain, Mixed, \"Dq\"; schemas: none, s1, \"S2\". Expected entities transcribed from the property statement and README."
 RULE = ("case = (declaration, context); expected entity keys known by construction (compared as a subset of the reported entity); "
         "non-trivial = every case; distinct by rendered DDL")
